@@ -147,6 +147,38 @@ def read_through_step(n, idx):
     check(r.get(idx) == dtm, "the position just read is exact")
 
 
+@harness("C19", cases=[(n, i) for n in (1, 2, 3) for i in range(0, n + 1)])
+def read_through_after_lost_announcements(n, idx):
+    """Read-through of a view that WAS exact (n contiguous entries from the top) when s >= 0 announcements
+    were lost: the invariant of the read-through is "exact over 0..idx-1, and below that the old entries, in
+    order, each believed exactly s' >= 0 positions higher than it is".  The truthful reply for position idx
+    re-establishes it for idx + 1 (s' drops by one when it was positive): so the read-through ends with
+    the controller's log, nothing at two positions and nothing lost (but what falls off position 62)."""
+    m, ks, vs, ps = sym_view(n)
+    dtm = sym_int("dtm", 1, 10 ** 6)
+    s = sym_int("announcements_lost", 0, 5)
+    for i in range(n):
+        assume(And(ks[i] == i, ps[i] == (i if i < idx else i + s)))
+    assume(truthful(ks, vs, ps, idx, dtm))
+    fl = make_log(m)
+    o = outcome(fl._insert_into_map, idx, dtm)
+    check(o.ok, "_insert_into_map does not raise")
+    r = o.value
+    for i in range(idx):
+        check(r.get(i) == vs[i], "positions already read stay exact")
+    check(r.get(idx) == dtm, "the position just read is exact")
+    if s == 0:
+        cover("nothing was lost")
+        for i in range(idx, n):
+            check(r.get(i) == vs[i], "a view that is still exact is left as it is")
+        check(len(r) == max(n, idx + 1), "and nothing is added to it")
+    else:
+        cover("announcements were lost")
+        for i in range(idx, n):
+            check(r.get(i + 1) == vs[i], "the entries below the position just read move down by exactly one (they are s - 1 too high now)")
+        check(len(r) == n + 1, "no entry is lost, none appears twice")
+
+
 # ---- views never raise ------------------------------------------------------------------------------------
 class FakeEntry:
     def __init__(self, ts, state):
